@@ -46,6 +46,18 @@ CHECKS["C19"] = dict(
          "with the model fed by independently computed components. Connected components themselves are a trusted external.",
     ref="§4 C19")
 
+CHECKS["C02"] = dict(
+    technique="Coq proof over the reals (Model/Criteria.v, Props/C02.v: exp/ln identities, field, lra) + per-case decisions "
+              "by the Coq-Interval tactic compared with criteria.evaluate() of real simulation objects",
+    text="Theorems for all real parameters: the evaluated value is min(1, exp x) and never an error; exponents are the "
+         "textbook ones (canonical, isobaric with (V'/V)^(N+1), isotension = isobaric - stress work, identical when the "
+         "stress is hydrostatic for every strain/cell; GC insertion/deletion prefactors; factorial loops = N!/(N+d)!). "
+         "Each real evaluate() verdict (scripted uniform number placed 1e-6..0.3 from the threshold) is re-decided inside "
+         "Coq by certified interval arithmetic on the same model definitions, and by 60-digit arithmetic as direct oracle.",
+    ref="§4 C02",
+    note=COMMON_NOTE + " IEEE rounding is not modelled: decisions are compared outside a 1e-9 guard band; ASE constants are "
+         "regenerated into Gen/Constants.v on every run.")
+
 NA_REASON = "check not built yet in this round (see DESIGN.md §8 order of construction); no weaker technique substituted"
 
 
